@@ -20,7 +20,6 @@ NA = {
 }
 PENDING = {
 "C11":"claimed in DESIGN.md; check under construction, not registered yet",
-"C14":"claimed in DESIGN.md; check under construction, not registered yet",
 }
 PY = "/venv/bin/python /verif/run_check.py"
 CHECKS = {
@@ -33,6 +32,10 @@ CHECKS["C12"] = dict(engine="iosim", category="fault_enumeration", design_ref="D
   text="For each seeded (class model, type, document) the load is performed from a str (reference), a Path on a simulated mount (patched io.open; real io stack on a stub raw device), StringIO, BytesIO, real files, TextIOWrapper/BufferedReader over the stub device and duck-typed read(n) streams, under chunk schedules that include a split at every offset (every multi-byte interior, CR|LF and 4096/8192 block boundary when the document is large); all canonical outcomes must be equal. For each seeded (dumper, value) every indent x ensure_ascii is dumped to a str path, Path (fresh and pre-existing), StringIO, duck sinks with/without flush, a real file and TextIOWrapper over the stub device with short raw writes; sink content must equal the dumps text exactly. Separately, one read/write/open error or EINTR per run is injected at enumerated offsets with a deliberately relaxed oracle (may raise; if it returns, value/text must be right).",
   note="Trusted: UTF-8 locale; the stub raw device and duck streams honour the RawIOBase / read(n) / write(s) contracts; message normalisation (source names, str-only snippets, byte positions, CR vs LF spelling) does not hide a real difference. Not decided: other locales, Windows newline translation, durability of partially written files.",
   technique="deterministic I/O simulation: stub raw device and duck streams under enumerated chunk schedules and single injected I/O faults; Hypothesis as seeded case generator/shrinker")
+CHECKS["C14"] = dict(engine="nodemodel", category="exploration", design_ref="DESIGN.md §7",
+  text="Seeded operation histories (up to 30, thorough 60 operations) on real yaml node trees through several yatiml.Node handles (root, attribute values, sequence items, two handles on one node, value nodes shared between keys) are executed step by step against an ordered-map / typed-scalar reference model written from the docstrings: after every operation the return value or exception class and the plain view of every live handle must equal the model's. get_value on parsed scalars is compared with PyYAML's own scalar constructors over a YAML 1.1/1.2 spelling alphabet; remove_attributes_with_default_values is checked against a MUST-remove / MUST-keep band and must never raise. No fault or schedule dimension exists for yatiml.Node and none is pretended.",
+  note="Trusted: the reference model (two-sided where the documentation is). Operations are applied only where the docstrings allow them, on mappings with distinct scalar keys. A seeded sample of histories, not an exhaustive enumeration.",
+  technique="model-based checking of seeded operation histories against an executable reference model (sequential refinement); Hypothesis as seeded plan generator/shrinker")
 ENGINES = {
  "cbfault": ("sim/engines/cbfault.py", ["C08"], "callback-seam fault enumeration over generated class models"),
  "iosim": ("sim/engines/iosim.py", ["C12"], "simulated raw device / duck streams: chunk schedules and I/O fault enumeration"),
